@@ -24,12 +24,6 @@ def qmfWithin (eps : Rat) (t : List (Int × Nat)) : Bool :=
   decide (absR (c.sum - 2) ≤ eps) && decide (absR (altSum c) ≤ eps) &&
   (List.range (c.length / 2)).all fun s => decide (absR (dot c s - (if s = 0 then 2 else 0)) ≤ eps)
 
-theorem scale_of_linear {K : Type} [Field K] (T : Nat → (Nat → K) → Nat → K)
-    (hT : ∀ N a b f g x, T N (fun i => a * f i + b * g i) x = a * T N f x + b * T N g x)
-    (N : Nat) (c : K) (f : Nat → K) (x : Nat) : T N (fun i => f i / c) x = T N f x / c := by
-  have e : (fun i => f i / c) = fun i => (1 / c) * f i + 0 * f i := by funext i; ring
-  rw [e, hT]; ring
-
 end Mahotas.C17
 
 open Mahotas Mahotas.C17
